@@ -8,7 +8,7 @@ DIFFERENTIALS = ("numpy", "pydantic", "pandas")
 
 META = {
     "explanation": "(a) ParameterGrid: for grid shapes (a dict or a list of <=2 dicts, 0-3 keys, 1-3 values per key, "
-                   "values solver variables) and a symbolic index: len, iteration order and __getitem__ agree, iteration "
+                   "values opaque tokens) and a symbolic index: len, iteration order and __getitem__ agree, iteration "
                    "yields every element of the union of the Cartesian products exactly once, out-of-range indexes raise "
                    "IndexError. (b) The real HyperTuner.execute / resolve run with a recording optimizer (a real "
                    "OptimizationAbstract subclass whose best cost for (grid point, trial) is a solver variable), the pool "
@@ -35,7 +35,8 @@ GRIDS = {
 def build_grid(shape, prefix="v"):
     if isinstance(shape, list):
         return [build_grid(s, f"{prefix}{i}.") for i, s in enumerate(shape)]
-    return {k: [sym.integer(f"{prefix}{k}{j}", -5, 5) for j in range(n)] for k, n in shape.items()}
+    # values are opaque to ParameterGrid (never compared): unique tokens, so that replays can identify them
+    return {k: [f"{prefix}{k}{j}" for j in range(n)] for k, n in shape.items()}
 
 
 def expected_points(grid):
@@ -62,7 +63,7 @@ def ob_grid(name):
                                expected=len(exp))
             # every expected point is yielded exactly once (compared by identity of the chosen value objects)
             def sig(p, src):
-                return tuple(sorted((k, id(v)) for k, v in p.items()))
+                return tuple(sorted((k, v) for k, v in p.items()))
             if sorted(sig(p, 0) for p in pts) != sorted(sig(p, 0) for p in exp):
                 return Failure("iteration-is-not-the-union-of-the-cartesian-products")
             i = sym.integer("index", -1, len(exp))
